@@ -229,6 +229,20 @@ def gen(out):
 
 # ---------------------------------------------------------------- running
 
+def _quick_budgets():
+    out = {}
+    for nm in os.listdir(os.path.join(VERIF, "props")):
+        m = re.match(r"(c\d\d)_.*\.py$", nm)
+        if m:
+            src = open(os.path.join(VERIF, "props", nm)).read()
+            b = re.search(r'budgets=\{"quick": (\d+)', src)
+            out[m.group(1).upper()] = int(b.group(1)) if b else 1000
+    return out
+
+
+QUICK = _quick_budgets()
+
+
 def module_of(pid):
     for nm in os.listdir(os.path.join(VERIF, "props")):
         if nm.lower().startswith(pid.lower() + "_") and nm.endswith(".py"):
@@ -269,7 +283,7 @@ def run_one(m, out, base, budget, shards, verif=None, stage2=None):
     env = dict(os.environ, VERIF_SCRATCH=d, VERIF_DIR=verif, VERIF_TIER="quick",
                VERIF_SEED="1", VERIF_REPO_COPY=tree, PYTHONPATH=tree + ":" + verif,
                PYTHONHASHSEED="0", PYTHONDONTWRITEBYTECODE="1")
-    plan = [(pid, budget, shards) for pid in m["props"]]
+    plan = [(pid, max(4, QUICK[pid] // 40), shards) for pid in m["props"]]
     if stage2:
         plan += [(pid, stage2[0], stage2[1]) for pid in m["props"]]
     for pid, bud, shr in plan:
